@@ -252,25 +252,65 @@ func (c *Ctx) c02Deliver() {
 		r.Fatal("UNRESOLVED anchor=Deliver []byte parameter")
 		return
 	}
-	// source read-only
+	// source read-only (followed into helpers of the package and through struct fields that
+	// merely carry it)
 	var badUse []string
-	for _, ref := range *source.Referrers() {
-		switch x := ref.(type) {
-		case *ssa.Call:
-			switch eng.CalleeName(x.Common()) {
-			case "github.com/jhillyerd/enmime/v2.DecodeHeaders", "bytes.NewReader", "builtin.len":
-			default:
-				badUse = append(badUse, eng.CalleeName(x.Common())+" at "+p.InstrPos(x))
-			}
-		case *ssa.DebugRef:
-		case *ssa.Slice:
-			badUse = append(badUse, "slice expression at "+p.InstrPos(x))
-		case *ssa.IndexAddr:
-			badUse = append(badUse, "element access at "+p.InstrPos(x))
-		default:
-			badUse = append(badUse, fmt.Sprintf("%T at %s", ref, p.InstrPos(ref)))
+	var dfns0 []*ssa.Function
+	for g := range p.SyncReach(deliver) {
+		if eng.FuncPkgPath(g) == eng.Mod+"/pkg/message" {
+			dfns0 = append(dfns0, g)
 		}
 	}
+	sortFuncs(dfns0)
+	seenV := map[ssa.Value]bool{}
+	var readOnly func(v ssa.Value, depth int)
+	readOnly = func(v ssa.Value, depth int) {
+		if depth > 5 || seenV[v] || v.Referrers() == nil {
+			return
+		}
+		seenV[v] = true
+		for _, ref := range *v.Referrers() {
+			switch x := ref.(type) {
+			case *ssa.Call:
+				switch eng.CalleeName(x.Common()) {
+				case "github.com/jhillyerd/enmime/v2.DecodeHeaders", "bytes.NewReader", "builtin.len":
+					continue
+				}
+				if g := eng.StaticCallee(x.Common()); g != nil && eng.FuncPkgPath(g) == eng.Mod+"/pkg/message" && len(g.Blocks) > 0 {
+					for i, a := range x.Call.Args {
+						if a == v && i < len(g.Params) {
+							readOnly(g.Params[i], depth+1)
+						}
+					}
+					continue
+				}
+				badUse = append(badUse, eng.CalleeName(x.Common())+" at "+p.InstrPos(x))
+			case *ssa.Store:
+				// carried in a struct field: every load of that field must be read-only too
+				if fa, ok := x.Addr.(*ssa.FieldAddr); ok && x.Val == v {
+					f := eng.FieldOfAddr(fa)
+					for _, fn := range dfns0 {
+						eng.EachInstr(fn, func(in ssa.Instruction) {
+							if u, ok := in.(*ssa.UnOp); ok && u.Op == token.MUL && eng.SameField(eng.AddrField(u.X), f) {
+								readOnly(u, depth+1)
+							}
+						})
+					}
+					continue
+				}
+				badUse = append(badUse, "stored at "+p.InstrPos(x))
+			case *ssa.DebugRef:
+			case *ssa.Slice:
+				badUse = append(badUse, "slice expression at "+p.InstrPos(x))
+			case *ssa.IndexAddr:
+				badUse = append(badUse, "element access at "+p.InstrPos(x))
+			default:
+				badUse = append(badUse, fmt.Sprintf("%T at %s", ref, p.InstrPos(ref)))
+			}
+		}
+	}
+	readOnly(source, 0)
+	sort.Strings(badUse)
 	if len(badUse) > 0 {
 		r.Bad("C02/DELIVER/concat", "source-readonly", p.Pos(deliver.Pos()), "the message bytes are used by an operation that is not in the read-only table: %s", strings.Join(badUse, "; "))
 	} else {
@@ -298,6 +338,16 @@ func (c *Ctx) c02Deliver() {
 			}
 		}
 		call, ok := stored.(*ssa.Call)
+		var viaHelper ssa.Instruction
+		if ok && eng.CalleeName(call.Common()) != "io.MultiReader" {
+			// a helper of the package that builds the reader: its single returned value
+			if rets, g := eng.ReturnedValues(call, 0); g != nil && len(rets) == 1 && eng.FuncPkgPath(g) == eng.Mod+"/pkg/message" {
+				if mr, isCall := rets[0].(*ssa.Call); isCall && eng.CalleeName(mr.Common()) == "io.MultiReader" {
+					viaHelper = call
+					call = mr
+				}
+			}
+		}
 		if !ok || eng.CalleeName(call.Common()) != "io.MultiReader" {
 			// direct reader over source?
 			tr := newByteTracer(c)
@@ -331,6 +381,17 @@ func (c *Ctx) c02Deliver() {
 			tr := newByteTracer(c)
 			os := tr.trace(elems[i], 0, map[ssa.Value]bool{})
 			if i == n-1 {
+				if len(os) == 1 && os[0].kind == "field" {
+					// the source carried in a struct field with a single store in the package
+					if u, isU := os[0].val.(*ssa.UnOp); isU {
+						if f := eng.AddrField(u.X); f != nil {
+							if fs := eng.StoresToField(dfns, f); len(fs) == 1 {
+								tr2 := newByteTracer(c)
+								os = tr2.trace(fs[0].Store.Val, 0, map[ssa.Value]bool{})
+							}
+						}
+					}
+				}
 				ok := len(os) == 1 && os[0].kind == "param" && os[0].val == ssa.Value(source)
 				if !ok {
 					problems = append(problems, fmt.Sprintf("last segment is not a reader over the unmodified source parameter (origins: %s)", originsStr(os)))
@@ -353,6 +414,9 @@ func (c *Ctx) c02Deliver() {
 			def, ok := v.(ssa.Instruction)
 			if !ok {
 				continue
+			}
+			if viaHelper != nil && def.Parent() != storeAt.Parent() {
+				def = viaHelper // created inside the helper: as fresh as the helper call
 			}
 			have := loopHeaders(def.Block())
 			for _, h := range want {
